@@ -242,7 +242,8 @@ def gen_token(rng, consts):
         d = gen_digits(rng, {"x": "0123456789abcdefABCDEF", "o": "01234567", "b": "01", "d": "0123456789"}[b], hi=8)
         return ("based", "0" + b + d, ("number", int(d, {"x": 16, "o": 8, "b": 2, "d": 10}[b])))
     if k == 2:
-        m = gen_digits(rng, hi=5)
+        # (long mantissas too: an exact literal has as many significant digits as it is written with)
+        m = gen_digits(rng, hi=rng.choice([5, 5, 5, 20, 32, 45]))
         sg = rng.choice(("", "+", "-"))
         e = gen_digits(rng, hi=2)
         if rng.random() < 0.25:
